@@ -27,7 +27,7 @@ def _size(s):
         return None
     if not hasattr(s, "value"):
         return {"?": repr(s)}
-    return [repr(s.value), _enum(getattr(s, "unit", None))]
+    return [_num(s.value), _enum(getattr(s, "unit", None))]
 
 
 def _layout(l):
@@ -52,7 +52,7 @@ def _plain(v, depth=0):
     if v is None or isinstance(v, (bool, str)):
         return v
     if isinstance(v, (int, float)):
-        return repr(v)
+        return _num(v)
     if isinstance(v, dict):
         return {"{}": sorted(([str(k), _plain(x, depth + 1)] for k, x in v.items()), key=lambda kv: kv[0])}
     if isinstance(v, (list, tuple)):
@@ -73,6 +73,16 @@ def _node(n):
 
 
 def _num(v):
+    """Numbers by value: 1000000 and 1000000.0 compare equal, so they dump the same (the properties speak of sets
+    that *compare equal* to a snapshot); anything that is not a plain number by repr."""
+    if isinstance(v, bool):
+        return repr(v)
+    if isinstance(v, int):
+        return repr(v)
+    if isinstance(v, float):
+        if v == v and v not in (float("inf"), float("-inf")) and v.is_integer():
+            return repr(int(v))
+        return repr(v)
     return repr(v)
 
 
